@@ -1,12 +1,17 @@
 """C11 - each attitude-estimator step keeps the state valid and the covariance consistent.  PARTIAL (level: other).
 
 Decided (for all inputs of the stated cells):
-  * an accelerometer correction that reports a non-zero error code returns state and covariance factor unchanged
-    (magnitude gate, both sides);
+  * initialize: whenever the error code is 0 the matrix handed to SO3Mrp.from_Matrix is exactly the attitude C that
+    produced the gravity / field measurements, for every C (S^3 chart), declination, field direction and magnitudes
+    (modular, see InitR0); x0 is shadow_if_necessary(from_Matrix(R0)) (QF_UF); from_Matrix / from_Quat / shadow / exp
+    are the C07 / C02 lemmas, re-discharged here;
+  * an accelerometer or magnetometer correction that reports a non-zero error code returns state and covariance factor
+    unchanged, for every gate (ITE + uninterpreted-function encoding, `rejection_gate`), plus the arithmetic cells of the
+    accelerometer magnitude gate (`rejection:accel`);
   * predict: the returned MRP is the real shadow switch applied to the RK4 step (QF_UF) and hence has norm <= 1
     (shadow lemma, re-discharged), the bias is unchanged, W1 is structurally lower triangular, and the MRP step agrees with the exact flow of r' = B(r)(omega - b) to fourth order in dt
     (h-derivatives at dt = 0 equal the Lie derivatives of the real kinematic Jacobian up to order 4);
-NOT decided: rejection by the magnetometer gates, exactness of `initialize`, finiteness of the covariance step for every well-conditioned W, and the
+NOT decided: finiteness of the covariance step for every well-conditioned W, and the
 covariance-decrease contract of an accepted correction (the 6-state symbolic QR is out of reach; the underlying
 identities are C10's, for n_x <= 3)."""
 from __future__ import annotations
@@ -27,8 +32,10 @@ TRUSTED = ["CasADi SX construction, AD and instruction API", "IR->SMT encoder (v
 ASSUMPTIONS = ["real arithmetic ('bit-for-bit' is decided as equality over the reals; 0 + (-0.0) is not distinguished)",
                "fourth-order claim: |r| < 1 so that the shadow switch is inactive around dt = 0; constants within 2 ulp of p/q "
                "are read as p/q (rk4's 1/6)",
-               "initialize exactness, covariance finiteness and P+ <= P for accepted corrections are NOT decided"]
-BOUNDS = {"cells": "all cells of the gating logic that lead to rejection; both shadow cells of predict"}
+               "initialize: the field direction has a horizontal component (|inclination| < pi/2) and g, |B| > 0; the link between "
+               "the declination and its (sin, cos) lives in the re-discharged exp lemma (C02)",
+               "covariance finiteness and P+ <= P for accepted corrections are NOT decided"]
+BOUNDS = {"cells": "all cells of the gating logic that lead to rejection; both shadow cells of predict; the error-code-0 cells of initialize"}
 EXPLANATION = ("step contracts that are reachable with the instruction-list encoding: rejection leaves (x, W) unchanged, the "
                "predicted MRP stays in the unit ball and is a fourth-order step of the real kinematics; the remaining clauses of "
                "the property are listed as not decided")
@@ -263,15 +270,312 @@ def job_predict_shadow():
     return dict(records=recs, stats=stats)
 
 
+class InitR0(Harness):
+    """initialize: for the measurements g_b = g C^T (0,0,-1), B_b = |B| C^T B_n produced by ANY attitude C (S^3 chart),
+    any declination and any field direction with a horizontal component along the declination, the matrix handed to
+    SO3Mrp.from_Matrix is exactly C whenever the error code is 0.
+    Modular: (a) the declination correction exp(-decl n3_b).to_Matrix() is cut - the harness checks that the argument of
+    exp is -decl * (third row of C) and binds the result to the Rodrigues rotation about that unit axis (C02's theorem
+    M(exp x) = expm(x^), re-discharged for SO3Mrp); (b) the second cross product is evaluated at (row 2, row 3) of C
+    once its real arguments are proved equal to them; from_Matrix and the shadow switch are the C07 lemmas
+    (re-discharged); `x0 = shadow(from_Matrix(R0))` is the QF_UF job below."""
+    timeout_ms = 120000
+    max_cells = 64
+    name = "C11:initialize:R0"
+
+    def _derive(self):
+        import casadi
+        import cyecca.estimate.attitude.algorithms.mrp as m
+        import cyecca.lie.group_so3 as g
+        rec = dict(R0=[], v=[], cross=[])
+        E = ca.SX.sym("cutE", 3, 3)
+        P2, P3 = ca.SX.sym("cutP2", 3), ca.SX.sym("cutP3", 3)
+        o_fm = g.SO3MrpLieGroup.from_Matrix
+        o_exp = g.SO3MrpLieGroup.exp
+        o_cross = casadi.cross
+
+        def names(x):
+            return {v.name() for v in ca.symvar(ca.SX(x))}
+
+        def fm(self_, arg):
+            rec["R0"].append(ca.SX(arg))
+            return o_fm(self_, arg)
+
+        def exp(self_, arg):
+            if any(n.startswith("g_b") for n in names(arg.param)):
+                rec["v"].append(ca.SX(arg.param))
+                return g.SO3Dcm.from_Matrix(E)
+            return o_exp(self_, arg)
+
+        def cross(a, b, *k):
+            if any(n.startswith("cutE") for n in names(a)):
+                rec["cross"].append((ca.SX(a), ca.SX(b)))
+                return o_cross(P2, P3, *k)
+            return o_cross(a, b, *k)
+        g.SO3MrpLieGroup.from_Matrix, g.SO3MrpLieGroup.exp, casadi.cross = fm, exp, cross
+        try:
+            try:
+                m.initialize()
+            except RuntimeError:
+                pass  # the cut symbols are free: the Function cannot be built; the recordings are what is used
+        finally:
+            g.SO3MrpLieGroup.from_Matrix, g.SO3MrpLieGroup.exp, casadi.cross = o_fm, o_exp, o_cross
+        if (len(rec["R0"]), len(rec["v"]), len(rec["cross"])) != (1, 1, 1):
+            raise HarnessError(f"initialize: unexpected structure (from_Matrix x{len(rec['R0'])}, exp of a gravity-dependent "
+                               f"vector x{len(rec['v'])}, cross of the corrected east vector x{len(rec['cross'])})")
+        R0 = rec["R0"][0]
+        sv = {v.name(): v for v in ca.symvar(ca.vertcat(ca.vec(R0), rec["v"][0]))}
+        try:
+            g_b = ca.vertcat(*[sv[f"g_b_{i}"] for i in range(3)])
+            B_b = ca.vertcat(*[sv[f"B_b_{i}"] for i in range(3)])
+        except KeyError as e:
+            raise HarnessError(f"initialize: input symbol {e} not found")
+        f_real = m.initialize()
+        ret = f_real(g_b, B_b, m.mag_decl)[1]
+        return ca.Function("init_obs", [g_b, B_b, m.mag_decl, ca.vec(E), P2, P3],
+                           [R0, ret, rec["v"][0], rec["cross"][0][0], rec["cross"][0][1]])
+
+    def build(self):
+        return self._derive()
+
+    def make_ctx(self):
+        from ..oracles import s3_chart, quat_to_R, weier, rot_axis_angle
+        ctx = Ctx()
+        ctx.light_feasibility = True
+        ctx.poly_first = True  # norms of chart-parametrised vectors are polynomial identities: expand before asking z3
+        u = [Val.var(f"u{i}") for i in range(3)]
+        C = quat_to_R(s3_chart(*u))  # C_nb: v_n = C v_b ; rows = navigation axes in body coordinates
+        g = Val.var("g")
+        Bs = Val.var("Bs")
+        decl = Val.var("decl")
+        ctx.assume(g.num_term() > 0, Bs.num_term() > 0)
+        sd, cd = weier(Val.var("decl_u"))  # (sin, cos) of the declination; their link to `decl` is inside the exp lemma
+        w = Val.var("incl_u")  # tan(inclination/2) in (-1, 1): horizontal field component cos(incl) > 0
+        ctx.assume(w.num_term() > -1, w.num_term() < 1)
+        si, ci = weier(w)
+        B_n = [Bs * ci * cd, Bs * ci * sd, Bs * si]
+        g_b = [-g * C[2][j] for j in range(3)]
+        B_b = [C[0][j] * B_n[0] + C[1][j] * B_n[1] + C[2][j] * B_n[2] for j in range(3)]
+        ctx.roots += [g, Bs, ci, Bs * ci]
+        E = rot_axis_angle(C[2], -sd, cd)  # expm(-decl n3^) for the unit axis n3 = third row of C
+        ctx.aux = dict(C=C, decl=decl)
+        Ecm = [E[i][j] for j in range(3) for i in range(3)]  # column-major, as ca.vec
+        return ctx, [g_b, B_b, [decl], Ecm, list(C[1]), list(C[2])]
+
+    def env_fix(self, env):
+        if "decl_u" in env:
+            env["decl"] = 2 * mp.atan(env["decl_u"])
+
+    def cell_filter(self, cell):
+        code = cell.outs[1][0]
+        return code.is_const() and code.c == 0
+
+    def claims(self, outs, ins, aux):
+        R0, code, v, a2, a3 = outs
+        C = aux["C"]
+        cl = [Claim("code_zero", code[0][0], 0)]
+        for i in range(3):
+            cl.append(Claim(f"exp_argument=-decl*n3[{i}]", v[i][0], -aux["decl"] * C[2][i]))
+            cl.append(Claim(f"east=row2(C)[{i}]", a2[i][0], C[1][i]))
+            cl.append(Claim(f"down=row3(C)[{i}]", a3[i][0], C[2][i]))
+        for i in range(3):
+            for j in range(3):
+                cl.append(Claim(f"R0=C[{i},{j}]", R0[i][j], C[i][j]))
+        return cl
+
+
+def job_init_structure():
+    """initialize returns x0 = [shadow_if_necessary(from_Matrix(R0)); 0] when the error code is 0 and the zero vector
+    otherwise (QF_UF congruence with the real from_Matrix and the real shadow switch applied to the recorded matrix)"""
+    import time
+    import cyecca.lie.group_so3 as g
+    import cyecca.lie as lie
+    from ..ir import IR
+    from ..uf import UFDomain, uf_outputs, uf_equiv
+    t0 = time.time()
+    name = "C11:initialize:structure"
+    stats = dict(name=name, cells=1, queries=0, solver_time=0.0, functions=[], resolutions={})
+    rec = []
+    orig = g.SO3MrpLieGroup.from_Matrix
+
+    def spy(self_, arg):
+        rec.append(ca.SX(arg))
+        return orig(self_, arg)
+    g.SO3MrpLieGroup.from_Matrix = spy
+    try:
+        import cyecca.estimate.attitude.algorithms.mrp as m
+        f = m.initialize()
+    except Exception as e:
+        import traceback
+        return dict(records=[dict(label="build", status="crash", harness=name, detail=f"{type(e).__name__}: {e}",
+                                  trace=traceback.format_exc()[-1500:])], stats=stats)
+    finally:
+        g.SO3MrpLieGroup.from_Matrix = orig
+    recs = []
+    if len(rec) != 1:
+        recs.append(dict(label="from_Matrix_called_once", status="refuted", harness=name,
+                         replay=dict(confirmed=True, note=f"SO3Mrp.from_Matrix called {len(rec)} times while deriving initialize")))
+        return dict(records=recs, stats=stats)
+    sv = {v.name(): v for v in ca.symvar(rec[0])}
+    g_b = ca.vertcat(*[sv[f"g_b_{i}"] for i in range(3)])
+    B_b = ca.vertcat(*[sv[f"B_b_{i}"] for i in range(3)])
+    x0, ret = f(g_b, B_b, m.mag_decl)
+    X = lie.SO3Mrp.from_Matrix(rec[0])
+    lie.SO3Mrp.shadow_if_necessary(X)
+    want = ca.if_else(ret == 0, ca.vertcat(X.param, ca.SX.zeros(3)), ca.SX.zeros(6))
+    gfun = ca.Function("init_struct", [g_b, B_b, m.mag_decl], [x0, want])
+    ir = IR(gfun)
+    stats["functions"].append(dict(function="initialize", instructions=ir.n_instr))
+    D = UFDomain()
+    outs = uf_outputs(ir, D)
+    labels = [f"x0_is_shadow_of_from_Matrix[{i}]" for i in range(3)] + [f"bias_zero[{i}]" for i in range(3)]
+    for (k, r), lab in zip(uf_equiv(outs[0], outs[1], D), labels):
+        st = {"unsat": "proved", "sat": "refuted", "unknown": "unknown"}[r]
+        rc = dict(label=lab, harness=name, cell="uf", t=0.0, status=st)
+        if st == "refuted":
+            import random
+            from ..harness import _casadi_eval, _same
+            rng = random.Random(k)
+            diff = None
+            for _ in range(200):
+                pt = [[rng.uniform(-1, 1) * (9.8 if i == 0 else 1.0) for _ in range(ir.in_nnz[i])] for i in range(ir.n_in)]
+                o = _casadi_eval(gfun, pt)
+                if not _same(o[0][k][0], o[1][k][0], 1e-12):
+                    diff = dict(inputs=pt, lhs=o[0][k][0], rhs=o[1][k][0])
+                    break
+            rc["replay"] = dict(confirmed=diff is not None, **(diff or {"reason": "not congruent but numerically equal"}))
+            if diff is None:
+                rc["status"] = "spurious"
+        recs.append(rc)
+        stats["queries"] += 1
+    stats["wall"] = time.time() - t0
+    return dict(records=recs, stats=stats)
+
+
+def job_rejection_gate(which):
+    """a correction that reports a non-zero error code returns (x, W) unchanged, for EVERY gate of the step: the real
+    function is encoded with if_else as ITE and every transcendental / square root uninterpreted; the claim
+    code != 0 -> (x_out, W_out) = (x, W) is then a propositional + congruence fact (no arithmetic axioms are needed,
+    so none are given: unsat without them implies unsat with them)."""
+    import time
+    import random
+    from ..ir import IR
+    from ..enc import IteDomain, evaluate
+    from ..harness import _casadi_eval
+    t0 = time.time()
+    name = f"C11:rejection_gate:{which}"
+    stats = dict(name=name, cells=1, queries=0, solver_time=0.0, functions=[], resolutions={})
+    try:
+        f = eqs()["correct_" + which]
+        si = f.sx_in()
+        o = f(*si)
+        on = [f.name_out(i) for i in range(f.n_out())]
+        inn = [f.name_in(i) for i in range(f.n_in())]
+        gfun = ca.Function("rej_" + which, si, [o[on.index("error_code")], o[on.index("x_" + which)], o[on.index("W_" + which)]])
+        ir = IR(gfun)
+        D = IteDomain()
+        ins = [[("r", z3.Real(f"in{i}_{k}")) for k in range(ir.in_nnz[i])] for i in range(ir.n_in)]
+        outs = evaluate(ir, ins, D)
+    except Exception as e:
+        import traceback
+        return dict(records=[dict(label="build", status="crash", harness=name, detail=f"{type(e).__name__}: {e}",
+                                  trace=traceback.format_exc()[-1500:])], stats=stats)
+    stats["functions"].append(dict(function=f.name(), instructions=ir.n_instr))
+    code = IteDomain.r(outs[0][0])
+    ix, iw = inn.index("x"), inn.index("W")
+
+    def entries(out_idx, in_idx, tag):
+        spo, spi = ir.out_sparsity[out_idx], ir.in_sparsity[in_idx]
+        pos = {}
+        k = 0
+        rows, colind = spi.row(), spi.colind()
+        for j in range(spi.size2()):
+            for idx in range(colind[j], colind[j + 1]):
+                pos[(rows[idx], j)] = k
+                k += 1
+        res = []
+        k = 0
+        rows, colind = spo.row(), spo.colind()
+        for j in range(spo.size2()):
+            for idx in range(colind[j], colind[j + 1]):
+                rc = (rows[idx], j)
+                want = IteDomain.r(ins[in_idx][pos[rc]]) if rc in pos else z3.RealVal(0)
+                res.append((f"{tag}_unchanged[{rc[0]},{rc[1]}]", IteDomain.r(outs[out_idx][k]), want, out_idx, k, in_idx, pos.get(rc)))
+                k += 1
+        return res
+    recs = []
+    for lab, got, want, oi, ok_, ii, ik in entries(1, ix, "x") + entries(2, iw, "W"):
+        s_ = z3.Solver()
+        s_.set("timeout", 10000)  # the valid case is propositional + congruence (milliseconds)
+        s_.add(code != 0, got != want)
+        r = str(s_.check())
+        stats["queries"] += 1
+        rc = dict(label=lab, harness=name, cell="ite", t=0.0, status={"unsat": "proved", "sat": "refuted"}.get(r, "unknown"))
+        if r != "unsat":
+            # sat, or unknown (a non-linear model search that did not finish): the verdict is then carried by the replay -
+            # replay: search a concrete rejected correction on which the real function changes this entry
+            rng = random.Random(ok_ * 7 + oi)
+            diff = None
+            for _ in range(400):
+                pt = []
+                for i in range(ir.n_in):
+                    n = inn[i]
+                    if n == "x":
+                        pt.append([rng.uniform(-0.4, 0.4) for _ in range(6)])
+                    elif n == "W":
+                        big = rng.random() < 0.7
+                        Wm = [[((rng.choice([0.2, 0.5]) if (big and a < 2) else 0.03) if a == b else rng.uniform(-0.005, 0.005))
+                               for b in range(6)] for a in range(6)]
+                        pt.append([Wm[a][b] for b in range(6) for a in range(b, 6)])
+                    elif n == "y_b":
+                        sc = rng.choice([0.3, 1.0, 2.5]) * (9.8 if which == "accel" else 1.0)
+                        v = [rng.uniform(-1, 1) for _ in range(3)]
+                        nv = sum(t * t for t in v) ** 0.5
+                        pt.append([t * sc / nv for t in v])
+                    elif n == "g":
+                        pt.append([9.8])
+                    elif n in ("std_accel", "std_mag"):
+                        pt.append([0.035 if which == "accel" else rng.choice([0.0025, 0.5])])
+                    elif n in ("beta_accel_c", "beta_mag_c"):
+                        pt.append([9.2])
+                    elif n == "std_accel_omega":
+                        pt.append([0.0])
+                    else:
+                        pt.append([rng.uniform(-0.5, 0.5) for _ in range(ir.in_nnz[i])])
+                ov = _casadi_eval(gfun, pt)
+                cv = ov[0][0][0]
+                spo = ir.out_sparsity[oi]
+                rr, cc = spo.get_triplet()
+                val = ov[oi][rr[ok_]][cc[ok_]]
+                wantv = pt[ii][ik] if ik is not None else 0.0
+                if cv != 0 and cv == cv and val != wantv:
+                    diff = dict(inputs=pt, input_names=inn, error_code=cv, returned=val, prior=wantv)
+                    break
+            rc["replay"] = dict(confirmed=diff is not None, **(diff or {"reason": "solver model only (uninterpreted functions); no "
+                                                                        "concrete rejected correction changing this entry was found"}))
+            if diff is None:
+                rc["status"] = "spurious" if r == "sat" else "unknown"
+            else:
+                rc["status"] = "refuted"
+        recs.append(rc)
+    stats["wall"] = time.time() - t0
+    return dict(records=recs, stats=stats)
+
+
 def lemma_harnesses():
     from . import C07
-    return [C07.Shadow()]
+    # initialize ends in SO3Mrp.from_Matrix (= Quat.from_Matrix + Mrp.from_Quat) followed by the shadow switch
+    # and cuts exp(-decl n3).to_Matrix() (C02: M(exp x) = expm(x^) for SO3Mrp)
+    from . import C02
+    return [C07.Shadow(), C07.FromMatrixLeaf(1), C07.FromMatrixLeaf(-1), C07.Direct("Mrp", "Quat"), C07.Direct("Mrp", "Quat", -1),
+            C02.ExpStub("SO3Mrp"), C02.ExpZero("SO3Mrp")]
 
 
 def all_harnesses(tier):
     # rejection:mag (tilt-uncertainty gate) and the direct norm claim on predict did not finish within the time caps;
     # the norm claim is replaced by "predict applies the real shadow switch" (QF_UF) + the shadow lemma
-    return [Rejection("accel", "too_large"), Rejection("accel", "too_small"), PredictOrder()]
+    return [Rejection("accel", "too_large"), Rejection("accel", "too_small"), PredictOrder(),
+            InitR0()]
 
 
 def get_harness(name, tier="quick"):
@@ -284,4 +588,7 @@ def get_harness(name, tier="quick"):
 def jobs(tier, seed):
     js = harness_jobs(__name__, all_harnesses(tier) + lemma_harnesses(), seed, tier)
     js.append(("C11:predict:shadow_applied", job_predict_shadow, ()))
+    js.append(("C11:initialize:structure", job_init_structure, ()))
+    js.append(("C11:rejection_gate:accel", job_rejection_gate, ("accel",)))
+    js.append(("C11:rejection_gate:mag", job_rejection_gate, ("mag",)))
     return js
